@@ -595,6 +595,15 @@ def _model_group(ctx, spec, g, path, ct, reqs, pending, case):
                 else:
                     impl = ('err', _kind(res))
                 pending.append((dict(case, what='getMeasurements', name=name), impl))
+                if name in (None, 0):
+                    # the value array itself, row by row (n rows also when no item matches)
+                    reqs.append(('getMeasurementMatrix', {'items': items, 'n': n, 'name': name}))
+                    if stm == 'ok':
+                        arr = np.asarray(res[1])
+                        rows = [[None if np.isnan(x) else t for x, t in zip(row, _tok(row))] for row in arr] if arr.ndim == 2 else 'not 2-D'
+                        pending.append((dict(case, what='getMeasurementMatrix', name=name), ('ok', rows)))
+                    else:
+                        pending.append((dict(case, what='getMeasurementMatrix', name=name), ('err', _kind(res))))
             for j, ms in enumerate(g.MeasurementsSequence):
                 it = ms.MeasurementValuesSequence[0]
                 reqs.append(('decodeMeas', {'values': _tok(np.frombuffer(_buf(it.FloatingPointValues), '<f4')),
